@@ -168,7 +168,8 @@ Definition x_post : view := s_view s.
 Definition x_k0 : state_kind := v_kind x_pre.
 Definition x_k1 : state_kind := v_kind x_post.
 Definition x_grew : bool := Nat.ltb (m_left m) (length (s_rx s)).
-Definition x_lba : option Z := if x_grew || s_busy s then Some (zmax_opt (m_lba m) x_now) else m_lba m.
+Definition x_pre_online : bool := match v_conn x_pre with ConnOffline => false | _ => true end.
+Definition x_lba : option Z := if (x_grew || s_busy s) && x_pre_online then Some (zmax_opt (m_lba m) x_now) else m_lba m.
 Definition x_sync : Z := p_bits_to_time p prop_sync_bits.
 Definition x_slot : Z := slot_time p.
 Definition x_silent (d : Z) : bool := match x_lba with Some l => l + d <? x_now | None => true end.
@@ -185,10 +186,11 @@ Definition x_e01 : list rule :=
         check (x_silent x_sync) R01_sync_pause ++
         (if kind_in x_k0 [KUseToken; KClaimToken; KAwaitDataResponse; KAwaitStatusResponse; KPassToken] then []
          else if state_kind_eqb x_k0 KCheckTokenPass then check (x_silent x_slot) R01_check_pass_before_slot
-         else if kind_in x_k0 [KListenToken; KActiveIdle] then
+         else if kind_in x_k0 [KListenToken; KActiveIdle; KOffline] then
            match x_txt with
            | Some (TData h _) =>
-               check (match h_fc h with FcResponse _ _ => h_sa h =? x_ts | _ => false end) R01_who_may_transmit
+               check (match h_fc h with FcResponse _ _ => (h_sa h =? x_ts) && negb (state_kind_eqb x_k0 KOffline) | _ => false end)
+                     R01_who_may_transmit
            | _ =>
                check (is_claim_token x_ts w) R01_who_may_transmit ++
                check (match m_start m with
@@ -213,7 +215,8 @@ Definition x_tx_end : option Z :=
   end.
 Definition x_online : bool := match v_conn x_post with ConnOffline => false | _ => true end.
 Definition x_start : option Z :=
-  if x_online then match m_start m with Some t => Some t | None => Some x_now end else None.
+  if x_online then match m_start m with Some t => Some t | None => Some x_now end
+  else if x_pre_online then Some x_now else m_start m.
 Definition x_quiet : option Z :=
   if negb x_online then None else
   match x_tx_end with
